@@ -3776,7 +3776,12 @@ class DecVarSub(VarSub):
 
     def affadapt(self, rvars):
 
-        if self.vtype in ['B', 'I']:
+        if len(self.vtype) == 1:
+            vtypes = self.vtype
+        else:
+            vtypes = np.array(list(self.vtype)).reshape(self.shape)
+            vtypes = ''.join(vtypes[self.indices].flatten())
+        if 'B' in vtypes or 'I' in vtypes:
             raise ValueError('No affine adaptation for integer variables.')
         if self.dro_model is not rvars.model.top:
             raise ValueError('Model mismatch.')
